@@ -653,7 +653,8 @@ def readQPat (s : Str) : Option (TPatT × List Str × Str) :=
         if patVarsOK a b c then some ((nodePat a, nodePat b, nodePat c), nodeVar a ++ nodeVar b ++ nodeVar c, r3)
         else none
 
-def readModifiers (s : Str) : Option (Option Pos × Option Nat × Option Nat) :=
+/-- `[ORDER BY ?v] [LIMIT n] [OFFSET n]`, and what follows -/
+def readModifiersR (s : Str) : Option ((Option Pos × Option Nat × Option Nat) × Str) :=
   let (order, s1) : Option (Option Pos) × Str :=
     match kw "ORDER" s with
     | some r =>
@@ -680,7 +681,10 @@ def readModifiers (s : Str) : Option (Option Pos × Option Nat × Option Nat) :=
         | none => (some none, s2)
       match offset with
       | none => none
-      | some off => if ws s3 = [] then some (ord, lim, off) else none
+      | some off => some ((ord, lim, off), s3)
+
+def readModifiers (s : Str) : Option (Option Pos × Option Nat × Option Nat) :=
+  (readModifiersR s).bind fun x => if ws x.2 = [] then some x.1 else none
 
 def readQuery (s : Str) : Option TQuery :=
   if s = lenQueryText then some .len else
@@ -713,5 +717,41 @@ def readQuery (s : Str) : Option TQuery :=
         if x.2.1.all (vs.contains ·) && vs.all (x.2.1.contains ·) && !vs.isEmpty then (sym '}' (optDot x.2.2)).bind fun r3 =>
           (readModifiers r3).map fun m => .triples x.1 m.1 m.2.1 m.2.2
         else none
+
+/-- modifiers, then an optional one-row `VALUES` block (what `query(initBindings=…)` appends), then
+    the end of the text -/
+def readTailB (s : Str) : Option ((Option Pos × Option Nat × Option Nat) × List (Str × TTerm)) :=
+  (readModifiersR s).bind fun m => (readValues m.2).bind fun v =>
+    if ws v.2 = [] then some (m.1, v.1) else none
+
+/-- a caller's or the store's pattern query with an optional trailing `VALUES` block:
+    `[PREFIX …] (ASK | SELECT vars) [WHERE] { s p o [.] } [modifiers] [VALUES ( ?v … ) { ( t … ) }]`.
+    The answer is the query and the one-row table it is joined with. -/
+def readQueryB (s0 : Str) : Option (TQuery × List (Str × TTerm)) :=
+  let s := skipPrologue (s0.length + 1) s0
+  let body := fun (vs : Option (List Str)) (r : Str) =>
+    let r' := match kw "WHERE" r with | some x => x | none => r
+    (sym '{' r').bind fun r1 => (readQPat r1).bind fun x =>
+      let ok := match vs with
+        | none => x.2.1.isEmpty
+        | some vs => x.2.1.all (vs.contains ·) && vs.all (x.2.1.contains ·) && !vs.isEmpty
+      if ok then (sym '}' (optDot x.2.2)).bind fun r2 =>
+        (readTailB r2).map fun t => (TQuery.triples x.1 t.1.1 t.1.2.1 t.1.2.2, t.2)
+      else none
+  match kw "ASK" s with
+  | some r => body none r
+  | none =>
+    match kw "SELECT" s with
+    | none => none
+    | some r => let (vs, r1) := readVarsAux 4 r; body (some vs) r1
+
+/-- joining a pattern query with a one-row table binds the table's variables in the pattern
+    (`s`, `p`, `o` name the positions) -/
+def TQuery.joinRow (bs : List (Str × TTerm)) : TQuery → TQuery
+  | .triples p o l f =>
+    .triples (match p.1 with | none => lookupVar ['s'] bs | x => x,
+              match p.2.1 with | none => lookupVar ['p'] bs | x => x,
+              match p.2.2 with | none => lookupVar ['o'] bs | x => x) o l f
+  | q => q
 
 end RV.C20
